@@ -674,6 +674,14 @@ pub fn run(ctx: &mut Ctx) {
         }
     }
     ctx.enumerate("aborted-call-then-another-component", true, cases.into_iter(), check);
+    // (b3) a neighbour with 65535 .. 70000 output buffers: the input presented for it refers to all of them
+    let mut cases = Vec::new();
+    for nb in [65_535usize, 65_536, 65_537, 70_000] {
+        for stable in [false, true] {
+            cases.push(Case { stable, n: 3, edges: vec![(0, 1), (0, 2), (1, 2)], removed: vec![], added: 0, late_edges: vec![], outputs: vec![2, 1], proc_capacity: 0, bufs: vec![nb, 1, 2], panic_label: None });
+        }
+    }
+    ctx.enumerate("neighbour-with-65536-buffers", true, cases.into_iter(), check);
     // (c) wide fan-in: far more incoming edges (parallel ones included) than nodes or than the processor's capacity hint
     ctx.require_class("in-degree above 16 and above the processor's capacity hint");
     let wide = (2usize..=40, 17usize..=80, 0usize..6, any::<bool>(), proptest::collection::vec(0usize..=3, 0..4)).prop_map(|(n, fan, proc_capacity, stable, bufs)| {
